@@ -246,8 +246,10 @@ func (i *Interpreter) createDirectorRequest(ctx *context.Context, dc *value.Dire
 	if backend == nil {
 		return nil, errors.WithStack(ErrQuorumWeightNotReached)
 	}
-	// From here the request is processed with the backend which the director determined
-	i.ctx.Backend = backend
+	// From here the request is processed with the backend which the director determined.
+	// req.backend gets its own value: a later assignment must not change the declared backend.
+	determined := *backend
+	i.ctx.Backend = &determined
 	return i.createBackendRequest(ctx, backend)
 }
 
